@@ -134,7 +134,7 @@ func zzAddSigInput(who common.Address, chain uint64, subject, sig []byte) []byte
 }
 
 // ZZ_C25_AddSignatureSequence: T AddSignature transactions on one subject by arbitrary signers (pool
-// members in any order with repeats, a candidate, a stranger; witnessed by the signer or by somebody else)
+// members in any order with repeats, a candidate, a stranger, validator 0 named but witnessed by an arbitrary other address)
 // on a pool of N consensus validators plus one candidate: exactly one transaction emits the
 // AddSignatureQuorum event, the one at which the distinct consensus signers first reach ceil(2N/3).
 func ZZ_C25_AddSignatureSequence() {
@@ -152,13 +152,16 @@ func ZZ_C25_AddSignatureSequence() {
 	signedSet := make([]bool, N)
 	distinct, events := 0, 0
 	for t := 0; t < T; t++ {
-		v := zzsym.Choose("signer", N+2) // N: the candidate, N+1: a stranger (key 7)
+		v := zzsym.Choose("signer", N+3) // N: the candidate, N+1: a stranger (key 7), N+2: validator 0 named, witnessed by somebody else
+		forged := v == N+2
+		if forged {
+			v = 0
+		}
 		who := zzValidatorAddr(7)
 		if v <= N {
 			who = zzValidatorAddr(v)
 		}
 		witness := who
-		forged := zzsym.Bool("witnessIsSomebodyElse")
 		if forged {
 			copy(witness[:], zzsym.Bytes("witness", 20))
 			zzsym.Assume(witness != who)
